@@ -536,6 +536,11 @@ func (c *Ctx) callContract(pi *PkgInfo, fo *types.Func, ct *Contract, recv *Val,
 	key := pi.Name + "." + ct.Name
 	c.callOrd[key]++
 	ord := c.callOrd[key]
+	if x != nil {
+		if so, ok := c.callSiteOrd[x]; ok {
+			ord = so // source-order ordinal of this call site
+		}
+	}
 	c.Fr = cf
 	defer func() { c.Fr = callerFr }()
 	pos := c.curPos
@@ -600,6 +605,9 @@ func (c *Ctx) callContract(pi *PkgInfo, fo *types.Func, ct *Contract, recv *Val,
 		c.Fr = cf
 	}
 	c.curPos = pos
+	c.Fr = callerFr
+	c.afterCall(fmt.Sprintf("%s#%d", key, ord), out)
+	c.Fr = cf
 	switch len(out) {
 	case 0:
 		return &Val{K: VTuple}
@@ -607,6 +615,47 @@ func (c *Ctx) callContract(pi *PkgInfo, fo *types.Func, ct *Contract, recv *Val,
 		return out[0]
 	}
 	return &Val{K: VTuple, Elems: out}
+}
+
+// afterCall runs the ghost statements attached to this call ordinal in the contract of the function under verification.
+func (c *Ctx) afterCall(key string, results []*Val) {
+	root := c.Fr
+	for root.Parent != nil {
+		root = root.Parent
+	}
+	if root.Contract == nil || root.Contract.After == nil {
+		return
+	}
+	acts := root.Contract.After[key]
+	if len(acts) == 0 {
+		return
+	}
+	env := &specEnv{vars: map[string]*Val{}, up: c.bound}
+	for i, r := range results {
+		if i == 0 {
+			env.vars["$result"] = r
+		}
+		env.vars[fmt.Sprintf("$result%d", i)] = r
+	}
+	saved := c.bound
+	c.bound = env
+	defer func() { c.bound = saved }()
+	for _, a := range acts {
+		switch a.Kind {
+		case "ghost":
+			root.Ghost[a.Name] = c.evalSpec(a.C.E)
+		case "assume":
+			c.E.noteAssumption(c.FuncName + ": after " + key + " assume " + a.C.Src)
+			c.assume(c.evalSpecBool(a.C.E))
+		case "assert":
+			c.useLemmas(a.C.Using)
+			label := a.C.Label
+			if label == "" {
+				label = key
+			}
+			c.assert("after", label, c.evalSpecBool(a.C.E), a.C.Src, a.C.Serves)
+		}
+	}
 }
 
 func (c *Ctx) modeConvFrom(callerFr *Frame, v *Val, t types.Type, fi, ff, ti, tf string) *Val {
@@ -956,6 +1005,7 @@ func (c *Ctx) callWithLiteral(cf, callerFr *Frame, ct *Contract, cb *CallbackSpe
 			}
 		}
 		env2 := &specEnv{vars: map[string]*Val{}, up: env}
+		env2.vars["cbresult"] = nil
 		var results []*Val
 		if res != nil && res.K == VTuple {
 			results = res.Elems
@@ -973,8 +1023,28 @@ func (c *Ctx) callWithLiteral(cf, callerFr *Frame, ct *Contract, cb *CallbackSpe
 			if rn != "" {
 				env2.vars[rn] = r
 			}
+			if i == 0 {
+				env2.vars["cbresult"] = r
+			}
+		}
+		if env2.vars["cbresult"] == nil {
+			delete(env2.vars, "cbresult")
 		}
 		c.bound = env2
+		// what the callee relies on about the function it calls back
+		cbOld, cbTop := cf.OldHeap, cf.OldTop
+		cf.OldHeap, cf.OldTop = before, c.St.Top
+		for i, q := range cb.Ensures {
+			t := c.evalSpecBool(q.E)
+			label := q.Label
+			if label == "" {
+				label = fmt.Sprintf("%d", i+1)
+			}
+			inCaller(func() {
+				c.assert(fmt.Sprintf("callback-post(%s#%d)", ct.Name, ord), label, t, q.Src, q.Serves)
+			})
+		}
+		cf.OldHeap, cf.OldTop = cbOld, cbTop
 		newGhost := map[string]*Val{}
 		for _, g := range cb.GhostUpdates {
 			newGhost[g.Name] = c.evalSpec(g.E)
